@@ -229,7 +229,11 @@ func TestC09(t *testing.T) {
 		rec.Rapid(t, "generated", evid.Pick(100000, 1500000), func(t *rapid.T) {
 			var p refchess.Pos
 			label := ""
-			switch gen.Draw(t, 0, 5, "family") {
+			switch gen.Draw(t, 0, 7, "family") {
+			case 6, 7:
+				if q, ok := gen.BlockMotif(t); ok {
+					p, label = q, "block"
+				}
 			case 0, 1:
 				if q, ok := gen.BoxedKingMotif(t); ok {
 					p, label = q, "boxed"
